@@ -84,14 +84,39 @@ impl R {
     }
 }
 
+/// Euclid's algorithm with `%`: linear for a small operand against a huge one (the library's binary
+/// gcd is quadratic there, which matters for literals with five-digit exponents).
+pub fn euclid_gcd(a: &BigInt, b: &BigInt) -> BigInt {
+    use num::{Signed, Zero};
+    let (mut a, mut b) = (a.abs(), b.abs());
+    while !b.is_zero() {
+        let r = &a % &b;
+        a = b;
+        b = r;
+    }
+    a
+}
+
+/// The tool's fraction as a normalised `BigRational` (panics on a zero denominator, like `BigRational::new`).
 pub fn to_big(r: &anything::Rational) -> BigRational {
-    BigRational::new(r.numer().clone(), r.denom().clone())
+    use num::{One, Signed, Zero};
+    let (n, d) = (r.numer(), r.denom());
+    if d.is_zero() {
+        panic!("denominator == 0 in a value handed out by the tool");
+    }
+    let g = euclid_gcd(n, d);
+    let (mut n, mut d) = if g.is_one() { (n.clone(), d.clone()) } else { (n / &g, d / &g) };
+    if d.is_negative() {
+        n = -n;
+        d = -d;
+    }
+    BigRational::new_raw(n, d)
 }
 
 /// The fraction as the tool stores it is canonical (what `--exact` prints and `is_integer` relies on).
 pub fn is_canonical(r: &anything::Rational) -> bool {
-    use num::{Integer, One, Signed};
-    r.denom().is_positive() && r.numer().gcd(r.denom()).is_one()
+    use num::{One, Signed};
+    r.denom().is_positive() && euclid_gcd(r.numer(), r.denom()).is_one()
 }
 
 pub fn val_of(n: &Numeric) -> Val {
